@@ -448,6 +448,8 @@ def build_node(spec, h, funcs=None):
             n = IfElseNode(fn, wt, wf, name=name, default_open=spec.get("default_open", True), **common)
         elif kind == "route":
             tg = [END if t == "END" else t for t in spec["targets"]]
+            if spec.get("targets_dict"):
+                tg = {t: f"go to {t}" for t in tg}  # the documented dict form (target -> description)
             fb = spec.get("fallback")
             fb = END if fb == "END" else fb
             n = RouteNode(fn, tg, fallback=fb, multi_target=bool(spec.get("multi")), name=name, default_open=spec.get("default_open", True), **common)
